@@ -35,6 +35,15 @@ def plans_for(batch, timeout=1800):
 def judge(st, ob):
     """-> '' or the failing clause of one executed step"""
     want_ret = st["ret"]
+    if st["op"] == "expose":
+        if ob["exc"]:
+            return "C03:declared-module-or-class-missing"
+        got, want = set(ob.get("exposed", [])), set(st["pos"])
+        if st["name"] == "class":
+            got -= {"name", "value"}                  # (attributes pybind11 gives every enum-like object)
+        if got - want:
+            return "C03:undeclared-name-exposed"
+        return "C03:declared-name-not-exposed" if want - got else ""
     if ob["exc"] != st["exc"]:
         # a result type that is not registered with Python cannot be converted: the entity ran, nothing to compare
         if want_ret == "any" and ob["exc"] == "TypeError" and [l.replace(", ", ",") for l in ob["log"]] == [l.replace(", ", ",") for l in st["log"]]:
@@ -99,9 +108,10 @@ def class_cpps(inst):
     return out
 
 
-def run(rep, thorough):
+def run(rep, thorough, pid="C04"):
+    """clauses C04:* (forwarding) are reported when pid = C04, clauses C03:* (exposure) when pid = C03"""
     pch = pyexec.ensure_pch()
-    n = 400 if thorough else 32
+    n = (400 if thorough else 32) if pid == "C04" else (200 if thorough else 20)
     cs, r = cases.simulate(n=n, seed=rep.seed + 11, target=12, members=8, profile="call")
     cs2, r2 = cases.simulate(n=n // 4, seed=rep.seed + 12, target=18, members=8, profile="call")
     rep.count("states", r.generated + r2.generated)
@@ -135,16 +145,18 @@ def run(rep, thorough):
         outcomes[outcome] = outcomes.get(outcome, 0) + 1
         origin, text, _tree = meta[mid]
         if outcome == "compile-error":
-            rep.violation("C04:generated-module-does-not-build", "", {"origin": origin, "text": text, "errors": detail})
+            if pid == "C04":
+                rep.violation("C04:generated-module-does-not-build", "", {"origin": origin, "text": text, "errors": detail})
         elif outcome == "gen-exc":
             continue
         elif outcome != "ok":
-            rep.violation("C04:generated-module-does-not-import", "", {"origin": origin, "text": text, "detail": detail})
+            if pid == "C04":
+                rep.violation("C04:generated-module-does-not-import", "", {"origin": origin, "text": text, "detail": detail})
         else:
             nsteps += len(plans[mid])
             for st in plans[mid]:
                 ops[st["op"]] = ops.get(st["op"], 0) + 1
-            for clause, k, st, ob in bad[:3]:
+            for clause, k, st, ob in [b for b in bad if b[0].startswith(pid + ":")][:3]:
                 rep.violation(clause, "", {"origin": origin, "text": text, "step": k, "plan_step": st, "observed": ob,
                                            "session": [(s["op"], ".".join(s["path"]), s["name"]) for s in plans[mid][:k + 1]][-12:]})
     rep.count("traces_validated_against_impl", len(items))
